@@ -438,6 +438,7 @@ pub fn run(tier: Tier) -> i32 {
     rep.cov("exhaustive", true);
     rep.assume("HTTP/3 is not driven (quiche cannot be placed under the harness); the authorisation decision in tunnel.rs is protocol independent");
     rep.assume("egress = any connect(2) / getaddrinfo issued by the process (interposed) or accept on the canary; raw ICMP sends are not interposed (ICMP is not configured in these runs)");
+    super::cq::c01_into(&mut rep);
     rep.finish()
 }
 
